@@ -14,7 +14,7 @@ RULE = (
     "normal completion or an accepted stop, 'abort' after an accepted abort/halt or a pause/suspension after clear_checkpoint, 'fail' "
     "with reason == str(exception) when the call raised a non-interruption exception; runs the PLAN closes after an accepted "
     "abort/stop say abort/success; the call raises RunEngineInterrupted iff an interruption was accepted and the plan did not fail; a "
-    "raised device error is the very object the device raised, a failed status arrives as FailedStatus with __cause__ the status' "
+    "call that raises anything else needs a cause (an injected fault or a plan that fails by itself): requests alone never do that; a raised device error is the very object the device raised, a failed status arrives as FailedStatus with __cause__ the status' "
     "exception; non-trivial = behaviour digest differs from the reference run"
 )
 ASSUMPTIONS = _x1.X1_ASSUMPTIONS + [
@@ -49,6 +49,7 @@ def _stops_by_origin(obs, lo, hi):
 
 
 def oracle(scn, obs, ref, schedule):
+    from bluesky._vendor.super_state_machine.errors import TransitionError
     from bluesky.utils import FailedStatus, RunEngineInterrupted
 
     from bsv.harness.devices import DeviceError
@@ -81,6 +82,13 @@ def oracle(scn, obs, ref, schedule):
         amb = [x for x in inter if chain_start <= x[1] < r and x[2] == "ambiguous"]
         e = c["exc"]
         failed = e is not None and not isinstance(e, RunEngineInterrupted)
+        # ---- a failure needs a cause: with no injected fault and a plan that does not fail by itself, interruptions
+        #      (resumable or not) end the call with RunEngineInterrupted or normally, never with another exception
+        if failed and c["name"] in ("RE", "resume") and not schedule.get("faults") and scn.params.get("cbfail") is None:
+            ref_ok = all(rc["exc"] is None for rc in ref.calls if rc["name"] != "probe")
+            if ref_ok and not isinstance(e, TransitionError):
+                kind = "non-resumable" if nonres else ("terminated" if accepted else "resumable")
+                out.append((f"failure-without-fault:{type(e).__name__}:{kind}", f"{c['name']}() raised {type(e).__name__}({str(e)[:80]!r}) although nothing failed: requests only ({[t[1] for t in seg if t[0] == 'inject']})"))
         # ---- expected exit statuses for engine-closed runs
         allowed = set()
         if failed:
